@@ -2,7 +2,7 @@
    Statements only; proofs are `exact <lemma>` into proofs/ConvergeProofs.v.
    The concrete step is Outcome.new_defs (plugin_outcome.go) on the votes of Observe.honest_votes (plugin_observation.go). *)
 From stdpp Require Import gmap.
-From DS Require Import Base RepoConstants Outcome Observe Converge ConvergeProofs.
+From DS Require Import Base RepoConstants StreamValue Outcome Observe ObservationCodec Converge ConvergeProofs ValidateProofs.
 
 (* the two vote limits in /repo are equal and positive, so the property's bound ceil(max(#remove, #add-or-replace)/5) applies *)
 Example C14_gen_limits : rm_limit = vote_limit /\ (0 < vote_limit)%nat /\ vote_limit = 5%nat /\ chan_cap = 2000%nat.
@@ -25,6 +25,24 @@ Theorem C14_honest_votes_shape : forall codec_ok prev target, o_stage prev <> Re
   honest_votes codec_ok prev target = (rm_votes (o_defs prev) target, up_votes (o_defs prev) target).
 Proof. exact honest_votes_shape. Qed.
 Print Assumptions C14_honest_votes_shape.
+
+(* what a correct node sends always passes ValidateObservation: at most 5 removals, at most 5 definitions, the voted
+   definitions verify (VerifyChannelDefinitions is monotone in the set: C14_verify_defs_monotone), no attestation
+   without a predecessor; the stream values are an input (at most MaxObservationStreamValuesLength of them, timestamped
+   values wrap decimals) *)
+Theorem C14_honest_observation_validates : forall codec_ok has_pred prev expected att retire ts vals,
+  (has_pred = false -> att = []) ->
+  (Z.of_nat (size vals) <= MaxObservationStreamValuesLength)%Z ->
+  (forall s v, vals !! s = Some v -> match v with STsv _ (SDec _) => True | STsv _ _ => False | _ => True end) ->
+  let votes := honest_votes codec_ok prev expected in
+  validate_observation codec_ok has_pred
+    {| ro_att := att; ro_retire := retire; ro_ts := ts; ro_removes := fst votes; ro_updates := snd votes; ro_values := vals |} = true.
+Proof. exact honest_votes_validate. Qed.
+Print Assumptions C14_honest_observation_validates.
+Theorem C14_verify_defs_monotone : forall codec_ok (m1 m2 : gmap Z chandef),
+  m1 ⊆ m2 -> verify_defs codec_ok m2 = true -> verify_defs codec_ok m1 = true.
+Proof. exact verify_defs_mono. Qed.
+Print Assumptions C14_verify_defs_monotone.
 
 (* one round with >= f+1 correct and <= f faulty observers: exactly the agreed changes happen, pointwise.
    H_cap: the union of the current and the target ids fits the cap (at the cap the harness decides; see DESIGN) *)
